@@ -689,4 +689,60 @@ Section GetRestores.
     exists (rev lits). rewrite <- load_ids_designate. cbn [fst snd]. split; [|exact H2].
     unfold mk_record. now rewrite H1, map_rev.
   Qed.
+
+  (* ---- end to end: LIST.ADD ; 0 ; LIST.GET ; execution of the record ---- *)
+  Lemma list_add_get_roundtrip_lemma (w : world) (s : state) (ids : list Z) (vr : list (list Z)) (E : list item) :
+    st_exec s = IInstr (s2l "LIST.ADD"%string) :: ILit (LInt 0) :: IInstr (s2l "LIST.GET"%string) :: E ->
+    st_ivec s = ids :: vr ->
+    Forall (fun k => literal_id k = true) ids ->
+    zlen (st_code s) < max32 ->
+    exists lits,
+      steps p full_registry (4 + length lits) w s =
+        Ok (false, w, set_code (set_exec (set_ivec s vr) E) (IList (map ILit lits) :: st_code s)).
+  Proof.
+    intros He Hv Hlit Hlen.
+    set (X1 := ILit (LInt 0) :: IInstr (s2l "LIST.GET"%string) :: E) in *.
+    set (s0 := set_ivec (set_exec s X1) vr).
+    destruct (designate_literal_roundtrip_lemma ids s0 Hlit) as [lits [Hrec Hback]].
+    exists lits.
+    remember (snd (designate ids s0)) as sd eqn:Hsd.
+    set (rec := IList (map ILit lits)) in *.
+    (* facts about sd from the round trip *)
+    pose proof (push_lits_fields lits sd) as HF. cbv zeta in HF. rewrite Hback in HF.
+    destruct HF as (_ & _ & _ & _ & _ & _ & _ & Hcode & Hexec & _).
+    change (st_code s0) with (st_code s) in Hcode. change (st_exec s0) with X1 in Hexec.
+    (* step 1: LIST.ADD *)
+    assert (Hadd : list_add (set_exec s X1) = Ok (push_code sd rec)).
+    { rewrite list_add_designate. change (st_ivec (set_exec s X1)) with (st_ivec s). rewrite Hv.
+      fold s0. cbv zeta. rewrite <- Hsd, Hrec. reflexivity. }
+    change (4 + length lits)%nat with (S (S (S (S (length lits))))).
+    rewrite (steps_S _ _ _ _ w (push_code sd rec)).
+    2:{ rewrite (step_instr _ _ _ _ _ _ He lookup_list_add). rewrite Hadd. reflexivity. }
+    (* step 2: the literal 0 *)
+    rewrite (steps_S _ _ _ _ w (push_lit (set_exec (push_code sd rec) (IInstr (s2l "LIST.GET"%string) :: E)) (LInt 0))).
+    2:{ apply step_lit. cbn [push_code st_exec set_code]. rewrite <- Hexec. reflexivity. }
+    (* step 3: LIST.GET addresses position 0 = the record just pushed *)
+    assert (Hl1 : zlen (rec :: st_code sd) <= max32) by (rewrite zlen_cons, <- Hcode; lia).
+    assert (Hp1 : 0 < zlen (rec :: st_code sd)) by (rewrite zlen_cons; pose proof (zlen_nonneg (st_code sd)); lia).
+    set (s3 := set_exec (set_code sd (rec :: st_code sd)) E).
+    assert (Hget : list_get (set_exec (push_lit (set_exec (push_code sd rec) (IInstr (s2l "LIST.GET"%string) :: E)) (LInt 0)) E)
+                   = Ok (push_exec s3 rec)).
+    { unfold list_get. cbn [push_lit push_code st_int set_int set_exec set_code st_code st_exec].
+      unfold record_pos. cbn [st_code set_int set_exec set_code push_code].
+      rewrite len32_small by exact Hl1. rewrite clamp_is_clamped by exact Hp1.
+      assert (Hc : clamped_pos 0 (zlen (rec :: st_code sd)) = 0).
+      { unfold clamped_pos. replace (0 <? 0) with false by reflexivity.
+        replace (zlen (rec :: st_code sd) <=? 0) with false by lia. reflexivity. }
+      rewrite Hc. rewrite l_copy_in by lia. cbn [Z.to_nat nth_error]. unfold rec at 1.
+      unfold s3, push_exec. destruct sd; reflexivity. }
+    rewrite (steps_S _ _ _ _ w (push_exec s3 rec)).
+    2:{ erewrite step_instr; [|reflexivity|exact lookup_list_get]. rewrite Hget. reflexivity. }
+    (* step 4: the record is unpacked *)
+    rewrite (steps_S _ _ _ _ w (set_exec s3 (map ILit lits ++ E))).
+    2:{ rewrite (step_list _ w _ (map ILit lits) E) by reflexivity. reflexivity. }
+    (* its literals are pushed *)
+    rewrite steps_lits with (E := E) by reflexivity.
+    unfold s3. rewrite !push_lits_set_exec, push_lits_set_code, Hback.
+    rewrite <- Hcode. unfold s0. destruct s; reflexivity.
+  Qed.
 End GetRestores.
